@@ -93,7 +93,11 @@ func view(r *sysRun) *runView {
 		case "start":
 			nrpc++
 			v.rpcKind[nrpc], v.rpcMd[nrpc] = st.Op, st.Md
-			v.ops = append(v.ops, opRec{T: st.T, Kind: st.Op, R: nrpc, Start: i, End: -1})
+			sk := st.Op
+			if sk == "InvokeBad" { // a unary call whose request does not marshal: an Invoke as far as the monitors are concerned
+				sk = "Invoke"
+			}
+			v.ops = append(v.ops, opRec{T: st.T, Kind: sk, R: nrpc, Start: i, End: -1})
 			cur[st.T] = len(v.ops) - 1
 		case "op":
 			kind := st.Op
